@@ -974,6 +974,11 @@ pub struct EvalOpts {
     /// mismatch to K1/K2: the question there is what the *unoptimised engine* would give under a
     /// reordering, not what the documentation admits.
     pub engine_exact: bool,
+    /// relax every and-group, whatever its shape and place (relaxed mode only). Used by the checks
+    /// other than C01 when they compare an optimised rule with the rule as loaded: K2 is C01's to
+    /// delimit exactly; elsewhere an envelope that certainly contains it is enough, and it keeps
+    /// gaps of the structural model from raising alarms under another property's name
+    pub wide: bool,
 }
 
 pub struct Evaluator<'a> {
@@ -1408,7 +1413,9 @@ impl<'a> Evaluator<'a> {
     /// May the operands of this and-group have been reordered by the optimiser?
     fn relax_and(&self, has_nested: bool, under_or: bool) -> bool {
         self.opts.relaxed
-            && ((has_nested && (self.opts.shake || self.opts.matrix)) || (under_or && self.opts.matrix))
+            && (self.opts.wide
+                || (has_nested && (self.opts.shake || self.opts.matrix))
+                || (under_or && self.opts.matrix))
     }
 
     fn block_has_nested(b: &RBlock) -> bool {
